@@ -26,8 +26,8 @@ pub trait UriExt {
     fn has_dubious_authority(&self) -> bool {
         let authority = self.get_authority();
 
-        // Filter out "localhost"
-        if authority == "localhost" {
+        // Filter out "localhost". Host names are case-insensitive.
+        if authority.eq_ignore_ascii_case("localhost") {
             return true;
         }
 
